@@ -117,18 +117,62 @@ Proof.
   intros s1 Hs1. apply safe_for_each_volume. exact Hs1.
 Qed.
 
-Lemma safe_select_trash_dirs user_dirs env s :
-  (forall p, In p (home_trash_dir_path_from_env env) -> EV (Found p [c_slash])) ->
-  (forall d v, In d user_dirs -> EV (Found d v)) ->
-  Inv s -> TT (select_trash_dirs handle user_dirs env uid s) Inv.
-Proof.
-  intros Hhome Huser Hs. unfold select_trash_dirs.
-  eapply T_bind with (Q' := Inv).
-  - destruct user_dirs; [apply safe_scan_trash_dirs; auto|apply T_ret; exact Hs].
-  - intros s1 Hs1. apply safe_fold_inv; [|exact Hs1]. intros s0 d Hd Hs0.
-    eapply T_bind; [apply safe_volume_of|]. intros v _. apply Hhandle; auto.
-Qed.
 End Handler.
+
+(* --all-users: the same for every entry of the password database, each with its own uid *)
+Section Selector.
+Context {S : Type}.
+Variable handle : S -> scan_event -> prog S.
+Variable EV : scan_event -> Prop.
+Variable Inv : S -> Prop.
+Hypothesis Hhandle : forall s ev, Inv s -> EV ev -> TT (handle s ev) Inv.
+Definition top_events (uid : N) : Prop :=
+  forall v, EV (Found (join3 v ($".Trash") (dec_of_N uid)) v)
+         /\ EV (SkippedNotSticky (join3 v ($".Trash") (dec_of_N uid)))
+         /\ EV (SkippedSymlink (join3 v ($".Trash") (dec_of_N uid)))
+         /\ EV (Found (join2 v ($".Trash-" ++ dec_of_N uid)) v).
+
+Lemma safe_scan_all_users pw env s :
+  (forall u, In u pw -> top_events (snd u) /\ EV (Found (home_trash_dir_path_from_home (fst u)) [c_slash])) ->
+  Inv s -> TT (scan_all_users handle pw env s) Inv.
+Proof.
+  intros Hpw Hs. unfold scan_all_users. apply safe_fold_inv; [|exact Hs].
+  intros s0 u Hu Hs0. destruct (Hpw u Hu) as [Htop Hhome].
+  eapply T_bind; [apply Hhandle; [exact Hs0|exact Hhome]|]. intros s1 Hs1.
+  apply (safe_for_each_volume handle EV Inv Hhandle (snd u) Htop). exact Hs1.
+Qed.
+
+Lemma safe_select_trash_dirs all_users user_dirs env uid s :
+  match all_users with
+  | Some pw => forall u, In u pw -> top_events (snd u) /\ EV (Found (home_trash_dir_path_from_home (fst u)) [c_slash])
+  | None => top_events uid
+            /\ (forall p, In p (home_trash_dir_path_from_env env) -> EV (Found p [c_slash]))
+            /\ (forall d v, In d user_dirs -> EV (Found d v))
+  end ->
+  Inv s -> TT (select_trash_dirs handle all_users user_dirs env uid s) Inv.
+Proof.
+  intros Hev Hs. unfold select_trash_dirs. destruct all_users as [pw|].
+  - apply safe_scan_all_users; assumption.
+  - destruct Hev as [Htop [Hhome Huser]]. eapply T_bind with (Q' := Inv).
+    + destruct user_dirs; [apply (safe_scan_trash_dirs handle EV Inv Hhandle uid Htop); auto|apply T_ret; exact Hs].
+    + intros s1 Hs1. apply safe_fold_inv; [|exact Hs1]. intros s0 d Hd Hs0.
+      eapply T_bind; [apply safe_volume_of|]. intros v _. apply Hhandle; auto.
+Qed.
+End Selector.
+
+Lemma select_events_true all_users (user_dirs : list str) env uid :
+  match all_users with
+  | Some pw => forall u : str * N, In u pw ->
+      top_events (fun _ => True) (snd u) /\ (fun _ : scan_event => True) (Found (home_trash_dir_path_from_home (fst u)) [c_slash])
+  | None => top_events (fun _ => True) uid
+            /\ (forall p, In p (home_trash_dir_path_from_env env) -> (fun _ : scan_event => True) (Found p [c_slash]))
+            /\ (forall d v, In d user_dirs -> (fun _ : scan_event => True) (Found d v))
+  end.
+Proof.
+  destruct all_users as [pw|].
+  - intros u _. split; [intros v; repeat split|exact I].
+  - split; [intros v; repeat split|split; intros; exact I].
+Qed.
 
 (* ---- the readers of trash-empty ---- *)
 Hypothesis Hread : forall p, OKop L (ReadText p).
